@@ -39,7 +39,19 @@ CornersOk(e) == /\ e.origin = [c \in 1..e.n |-> 0]
                 /\ e.vsize = [m \in 1..e.n |-> 1000000]
                 /\ e.steps = [m \in 1..e.n |-> <<CartOf(e.n, m) - 1, Sign(e.n, m)>>]
 
-Verdict(e) == IF e.op = "corners" THEN (IF CornersOk(e) THEN "ok" ELSE
+\* the coordinate system's enumeration lists every voxel of the image exactly once, with its coordinate
+EnumOk(e) == LET RECURSIVE P(_) P(q) == IF q = <<>> THEN 1 ELSE Head(q) * P(Tail(q)) IN
+             e.count = P(e.shape) /\ e.distinct = e.count /\ e.inside = 1 /\ e.coords_match = 1
+\* by Cartesian name: voxel size, length of 3 voxels, number of voxels in a length of 5 voxel sizes (harness units: 1e6 = exact)
+ByNameOk(e) == e.vsize = [c \in 1..e.n |-> 1000000] /\ e.lengths = [c \in 1..e.n |-> 1000000] /\ e.counts = [c \in 1..e.n |-> 5]
+\* the image's domain is the box spanned by origin and opposite corner
+DomainOk(e) == LET opp == CoordOf(e.n, [m \in 1..e.n |-> 4 * e.shape[m]]) IN
+               \A c \in 1..e.n : e.lo[c] = (IF opp[c] < 0 THEN opp[c] ELSE 0) /\ e.hi[c] = (IF opp[c] < 0 THEN 0 ELSE opp[c])
+
+Verdict(e) == IF e.op = "enum" THEN (IF EnumOk(e) THEN "ok" ELSE "VoxelEnumeration")
+              ELSE IF e.op = "byname" THEN (IF ByNameOk(e) THEN "ok" ELSE "VoxelSizeByCartesianName")
+              ELSE IF e.op = "domain" THEN (IF DomainOk(e) THEN "ok" ELSE "DomainIsBoundingBox")
+              ELSE IF e.op = "corners" THEN (IF CornersOk(e) THEN "ok" ELSE
                     IF e.origin # [c \in 1..e.n |-> 0] THEN "OriginAtVoxelZero"
                     ELSE IF e.vsize # [m \in 1..e.n |-> 1000000] THEN "VoxelSize"
                     ELSE IF e.steps # [m \in 1..e.n |-> <<CartOf(e.n, m) - 1, Sign(e.n, m)>>] THEN "UnitStepOrientation"
